@@ -10,8 +10,8 @@ use std::sync::{Arc, Mutex};
 pub fn prop() -> Prop {
   Prop {
     id: "C12",
-    rule: "case = (BehaviorSubject over Subject or SubjectThreads, initial value 100; history of <= 10 operations, each through one of <= 3 clones made at generated moments: next(v) with numbered values, next_by(+1000), clone, subscribe a probe, unsubscribe one probe, peek, complete, error, subscribe a probe that calls peek() from inside its callback, subscribe a probe that subscribes a further probe from inside its callback while its second item is delivered). \
-           Oracle (model = current value + live subscribers): peek() from inside a callback returns the item being delivered; a probe subscribed from inside a callback starts with the item being delivered and then gets every later item once; peek() == most recent value passed to any clone (initial value if none), also after a terminal; a new subscriber's first notification is that value (also when it joins after a terminal), then every later item exactly once in order, then the terminal once; next_by(f) emits f(current value); nothing is delivered to unsubscribed probes or after a terminal. Non-trivial: a value written through one clone is read (peek / subscribe / next_by) through another clone. Distinct by hash(case). Part `threads` (engine T): BehaviorSubject over SubjectThreads with one probe subscribed up front; two producer threads each send 1..2 numbered values through their own clone, a third thread subscribes a late probe; schedule = <= 3 preemptions at lock-acquisition granularity. Oracle: when all threads have finished, peek() equals the last value the up-front probe received (the common delivered order); the late probe's first value is the initial value or one of the produced values and it receives no value twice; no deadlock / panic. Part `short` enumerates all histories of length <= 5 (thorough tier).",
+    rule: "case = (BehaviorSubject over Subject or SubjectThreads, initial value 100; history of <= 10 operations, each through one of <= 3 clones made at generated moments: next(v) with numbered values, next_by(+1000), clone, subscribe a probe, unsubscribe one probe, peek, complete, error, subscribe a probe that calls peek() from inside its callback, subscribe a probe that subscribes a further probe from inside its callback while its second item is delivered, unsubscribe() on the BehaviorSubject itself, sample is_closed()). \
+           Oracle (model = current value + live subscribers): after unsubscribe() through any clone nothing is delivered to anybody and is_closed() is true on every clone, on a live subject it is false; peek() from inside a callback returns the item being delivered; a probe subscribed from inside a callback starts with the item being delivered and then gets every later item once; peek() == most recent value passed to any clone (initial value if none), also after a terminal; a new subscriber's first notification is that value (also when it joins after a terminal), then every later item exactly once in order, then the terminal once; next_by(f) emits f(current value); nothing is delivered to unsubscribed probes or after a terminal. Non-trivial: a value written through one clone is read (peek / subscribe / next_by) through another clone. Distinct by hash(case). Part `threads` (engine T): BehaviorSubject over SubjectThreads with one probe subscribed up front; two producer threads each send 1..2 numbered values through their own clone, a third thread subscribes a late probe; schedule = <= 3 preemptions at lock-acquisition granularity. Oracle: when all threads have finished, peek() equals the last value the up-front probe received (the common delivered order); the late probe's first value is the initial value or one of the produced values and it receives no value twice; no deadlock / panic. Part `short` enumerates all histories of length <= 5 (thorough tier).",
     assumptions: &["threads part: sequentially consistent interleavings at lock-acquisition granularity"],
     parts: vec![
       Part { name: "histories", run: run_random, tape_len: 48, quick_cases: 800_000, thorough_cases: 16_000_000, exhaustive_depth: None, exhaustive_budget: 0, exh_quick: false },
@@ -35,6 +35,10 @@ enum Op {
   SubscribePeeker(usize),
   /// subscribe a probe that subscribes a further probe from inside its callback, while its second item is delivered
   SubscribeNester(usize),
+  /// `unsubscribe()` on a clone of the BehaviorSubject itself
+  UnsubSubject(usize),
+  /// sample `is_closed()` of a clone
+  IsClosed(usize),
 }
 
 type Log = Arc<Mutex<Vec<(usize, SEvt)>>>;
@@ -97,7 +101,7 @@ impl_probe!(SubjectThreads<i64, u8>);
 /// what the real object did: (peek results in order, delivery log)
 macro_rules! impl_run {
   ($name:ident, $subj:ty) => {
-    fn $name(initial_clones: usize, ops: &[Op]) -> (Vec<i64>, Vec<(usize, SEvt)>, Vec<(i64, i64)>) {
+    fn $name(initial_clones: usize, ops: &[Op]) -> (Vec<i64>, Vec<(usize, SEvt)>, Vec<(i64, i64)>, Vec<bool>) {
       let log: Log = Arc::new(Mutex::new(vec![]));
       let mut clones = vec![BehaviorSubject::<i64, $subj>::new(100)];
       for _ in 1..initial_clones {
@@ -108,6 +112,7 @@ macro_rules! impl_run {
       let inpeeks: Arc<Mutex<Vec<(i64, i64)>>> = Arc::new(Mutex::new(vec![]));
       let park: Arc<Mutex<Vec<Parked>>> = Arc::new(Mutex::new(vec![]));
       let mut peeks = vec![];
+      let mut closed = vec![];
       let mut item = 0;
       let mut next_probe = 0;
       for op in ops {
@@ -145,6 +150,8 @@ macro_rules! impl_run {
           Op::Peek(c) => peeks.push(clones[*c % n].peek()),
           Op::Complete(c) => clones[*c % n].clone().complete(),
           Op::Error(c) => clones[*c % n].clone().error(9),
+          Op::UnsubSubject(c) => clones[*c % n].clone().unsubscribe(),
+          Op::IsClosed(c) => closed.push(clones[*c % n].is_closed()),
         }
       }
       let l = log.lock().unwrap().clone();
@@ -153,7 +160,7 @@ macro_rules! impl_run {
       drop(subs);
       drop(clones);
       park.lock().unwrap().clear();
-      (peeks, l, ip)
+      (peeks, l, ip, closed)
     }
   };
 }
@@ -162,6 +169,9 @@ impl_run!(run_threads, SubjectThreads<i64, u8>);
 
 struct Expect {
   peeks: Vec<i64>,
+  /// expected is_closed() samples: Some(true) after unsubscribe() through any clone, Some(false) on a live subject,
+  /// None (not judged) after a terminal
+  closed: Vec<Option<bool>>,
   /// (probe id, expected notifications)
   per_sub: Vec<(usize, Vec<SEvt>)>,
   in_callback: bool,
@@ -179,6 +189,8 @@ fn model(initial_clones: usize, ops: &[Op]) -> Expect {
   let mut handle_alive: Vec<bool> = vec![];
   let mut dead = false;
   let mut peeks = vec![];
+  let mut closed: Vec<Option<bool>> = vec![];
+  let mut unsubscribed = false;
   let mut item = 0;
   let mut last_writer: Option<usize> = None;
   let mut cross = false;
@@ -259,6 +271,15 @@ fn model(initial_clones: usize, ops: &[Op]) -> Expect {
         }
         peeks.push(value)
       }
+      Op::UnsubSubject(_) => {
+        // the subject is torn down: nobody receives anything any more (no terminal either)
+        for s in subs.iter_mut() {
+          s.0 = false;
+        }
+        dead = true;
+        unsubscribed = true;
+      }
+      Op::IsClosed(_) => closed.push(if unsubscribed { Some(true) } else if dead { None } else { Some(false) }),
       Op::Complete(_) | Op::Error(_) => {
         if !dead {
           let ev = if matches!(op, Op::Complete(_)) { SEvt::C } else { SEvt::E(9) };
@@ -271,7 +292,7 @@ fn model(initial_clones: usize, ops: &[Op]) -> Expect {
       }
     }
   }
-  Expect { peeks, per_sub: ids.into_iter().zip(subs.into_iter().map(|s| s.1)).collect(), in_callback, cross_clone_read: cross }
+  Expect { peeks, closed, per_sub: ids.into_iter().zip(subs.into_iter().map(|s| s.1)).collect(), in_callback, cross_clone_read: cross }
 }
 
 fn finish(threads: bool, k: usize, ops: Vec<Op>, ctx: &Ctx) -> Outcome {
@@ -287,9 +308,11 @@ fn finish(threads: bool, k: usize, ops: Vec<Op>, ctx: &Ctx) -> Outcome {
   }
   let verdict = match &res {
     Err(m) => Verdict::Violation { sig: format!("panic:BehaviorSubject<{kind}>"), detail: m.clone() },
-    Ok((peeks, log, inpeeks)) => {
+    Ok((peeks, log, inpeeks, closed)) => {
       if let Some((v, p)) = inpeeks.iter().find(|(v, p)| v != p) {
         Verdict::Violation { sig: format!("peek-in-callback:BehaviorSubject<{kind}>"), detail: format!("peek() called from a subscriber's callback while item {v} was delivered returned {p}") }
+      } else if let Some(k) = closed.iter().zip(exp.closed.iter()).position(|(g, e)| e.map_or(false, |e| e != *g)) {
+        Verdict::Violation { sig: format!("is_closed:BehaviorSubject<{kind}>"), detail: format!("is_closed() sample #{k} returned {} ({})", closed[k], if closed[k] { "although the subject was neither terminated nor unsubscribed" } else { "although unsubscribe() had returned on a clone of the same subject" }) }
       } else if *peeks != exp.peeks {
         Verdict::Violation { sig: format!("peek:BehaviorSubject<{kind}>"), detail: format!("peek() returned {:?}, expected {:?}", peeks, exp.peeks) }
       } else {
@@ -309,7 +332,7 @@ fn finish(threads: bool, k: usize, ops: Vec<Op>, ctx: &Ctx) -> Outcome {
   let desc = if ctx.want_desc || matches!(verdict, Verdict::Violation { .. }) {
     Some(json!({
       "subject": format!("BehaviorSubject<i64, {kind}>::new(100), {k} clone(s) made up front"), "history": ops.iter().map(|o| format!("{o:?}")).collect::<Vec<_>>(),
-      "observed": res.as_ref().map(|(p, l, ip)| json!({"peeks": p, "peeks_in_callbacks(item, peeked)": ip, "delivered(subscriber,event)": l.iter().map(|(i,e)| format!("{i}:{e:?}")).collect::<Vec<_>>()})).unwrap_or_else(|m| json!({"panic": m})),
+      "observed": res.as_ref().map(|(p, l, ip, cl)| json!({"peeks": p, "is_closed_samples": cl, "peeks_in_callbacks(item, peeked)": ip, "delivered(subscriber,event)": l.iter().map(|(i,e)| format!("{i}:{e:?}")).collect::<Vec<_>>()})).unwrap_or_else(|m| json!({"panic": m})),
     }))
   } else {
     None
@@ -319,7 +342,7 @@ fn finish(threads: bool, k: usize, ops: Vec<Op>, ctx: &Ctx) -> Outcome {
 
 fn gen_op(c: &mut dyn Choices, compact: bool) -> Op {
   let k = if compact { 2 } else { 3 };
-  match c.pick(if compact { 8 } else { 14 }) {
+  match c.pick(if compact { 8 } else { 16 }) {
     0 => Op::Next(c.pick(k)),
     1 => Op::NextBy(c.pick(k)),
     2 => Op::CloneOf(0),
@@ -333,7 +356,9 @@ fn gen_op(c: &mut dyn Choices, compact: bool) -> Op {
     11 => Op::Peek(c.pick(k)),
     // (alternatives added at the high end: recorded tapes keep their meaning)
     12 => Op::SubscribePeeker(c.pick(k)),
-    _ => Op::SubscribeNester(c.pick(k)),
+    13 => Op::SubscribeNester(c.pick(k)),
+    14 => Op::UnsubSubject(c.pick(k)),
+    _ => Op::IsClosed(c.pick(k)),
   }
 }
 
